@@ -103,7 +103,7 @@ def handle (args : List String) : String :=
       let r := pctChange bs
       s!"ok n={r.length} mean={showOpt (retMean r)} var={showOpt (retVar r)} " ++
       s!"downside_sq={showRat (downsideSq r)} omega={showOpt (omega r)} growth={showRat (growth r)} " ++
-      s!"years={showRat (years r)}"
+      s!"years={showRat (years r)} calmar_dd={showOpt (calmarDrawdown r)}"
     | none => "bad-op"
   | "futures_sample" :: w :: k :: rest =>
     match parseRat? w, k.toNat?, parseFut? rest with
